@@ -15,7 +15,7 @@ import sys
 sys.path.insert(0, os.path.dirname(os.path.abspath(__file__)))
 VERIF = os.path.normpath(os.path.join(os.path.dirname(os.path.abspath(__file__)), ".."))
 NRES = 6
-LEAF_KINDS = ["Rd", "Rp", "Wd", "Wp", "r", "w", "U", "P"]
+LEAF_KINDS = ["Rd", "Rp", "Wd", "Wp", "r", "w", "U", "P", "Rc", "Wc"]
 
 
 def leaf(kind, k, lt="'_"):
@@ -24,6 +24,8 @@ def leaf(kind, k, lt="'_"):
     if kind == "Rp": return ("ReadExpect<%s, D<%d>>" % (lt, k), "R%dp" % k)
     if kind == "Wd": return ("Write<%s, D<%d>>" % (lt, k), "W%dd" % k)
     if kind == "Wp": return ("WriteExpect<%s, D<%d>>" % (lt, k), "W%dp" % k)
+    if kind == "Rc": return ("Read<%s, D<%d>, Logging>" % (lt, k), "R%dc" % k)
+    if kind == "Wc": return ("Write<%s, D<%d>, Logging>" % (lt, k), "W%dc" % k)
     if kind == "r": return ("Option<Read<%s, D<%d>>>" % (lt, k), "r%d" % k)
     if kind == "w": return ("Option<Write<%s, D<%d>>>" % (lt, k), "w%d" % k)
     if kind == "U": return ("()", "U")
@@ -40,7 +42,7 @@ def rand_leaf(rnd, lt="'_", conflict_free=None):
         kind = rnd.choice(LEAF_KINDS)
         k = rnd.randrange(NRES)
         if conflict_free is not None and kind not in ("U", "P"):
-            excl = kind in ("Wd", "Wp", "w")
+            excl = kind in ("Wd", "Wp", "w", "Wc")
             prev = conflict_free.get(k)
             if prev == "x" or (prev == "s" and excl):
                 continue
